@@ -58,6 +58,8 @@ def cfgs_for(d, p, tier):
     for ent in ['coneqp'] + (['qp'] if only_l else []):
         out.append({'entry': ent, 'storage': 'dense', 'kkt': None, 'via': 'global', 'opts': {'feastol': 1e-9, 'abstol': 1e-9, 'reltol': 1e-9}})
         out.append({'entry': ent, 'storage': 'sparse', 'kkt': None, 'via': 'global', 'prelude': LOOSE})
+        out.append({'entry': ent, 'storage': 'dense', 'kkt': None, 'poison': dict(LOOSE, maxiters=3)})
+        out.append({'entry': ent, 'storage': 'dense', 'kkt': None, 'opts': {'abstol': 0.0, 'reltol': 1e-6}})
     if only_l:
         for st in ('dense', 'sparse'):
             out.append({'entry': 'qp', 'storage': st, 'kkt': None})
